@@ -201,6 +201,7 @@ func cmdCheck(args []string) int {
 			return 2
 		}
 	}
+	lemmaProg = prog
 	tLoad := time.Since(t0).Seconds()
 	// generate
 	var results []*FuncResult
